@@ -32,7 +32,7 @@ Theorem C09_rename_to_used_identifier : forall s old new x y,
   exists e, rename s old new = Err e.
 Proof.
   intros s old new x y Hx Hy Hne _. unfold rename. rewrite Hx.
-  destruct (negb _ && _); [eexists; reflexivity|]. rewrite Hy.
+  destruct (negb _ && _); [eexists; reflexivity|]. destruct (Nat.leb 1 (g_vlevel s) && _); [eexists; reflexivity|]. rewrite Hy.
   destruct (Nat.eqb (g_id y) (g_id x)) eqn:E; [apply Nat.eqb_eq in E; contradiction | eexists; reflexivity].
 Qed.
 Print Assumptions C09_rename_to_used_identifier.
